@@ -60,6 +60,21 @@ func (p c10Pos) inTunnel() bool {
 	return !p.Wire && p.Proto == "TO2" && ((p.Phase == "req" && p.Msg >= 66) || (p.Phase == "resp" && p.Msg >= 65))
 }
 
+var c10KexNames = []string{"ECDH256", "ASYMKEX2048", "", "ECDH", "ecdh256", "DHKEXid16", "ASYMKEX4096", "ECDH521"}
+
+// cipher suite identifiers: the COSE registry range around the defined AEAD
+// and CCM values, the FDO private range, and boundary values
+var c10CipherIDs = func() []int64 {
+	var ids []int64
+	for i := int64(-3); i <= 40; i++ {
+		ids = append(ids, i)
+	}
+	for i := int64(-17760710); i <= -17760700; i++ {
+		ids = append(ids, i)
+	}
+	return append(ids, -65534, -65531, 1<<31, -1<<31, 1<<62)
+}()
+
 var c10HTTPFaults = []string{"no-content-length", "huge-content-length", "short-content-length", "bad-auth-scheme", "garbage-token", "other-protocol-token",
 	"method-get", "path-unknown-msg", "path-nested", "path-not-number", "msg-255-garbage", "msg-255-valid", "empty-body", "resp-bad-msgtype-header", "resp-status-418", "resp-huge-content-length", "resp-no-content-type"}
 
@@ -147,6 +162,16 @@ func (p *c10) Prepare(t *testing.T, tier string, seed uint64) {
 				}
 				for g := 0; g < nb; g++ {
 					plans = append(plans, C10Plan{Seed: base.Seed, Key: f.Key, Enc: f.Enc, Proto: proto, Phase: pos.Phase, Msg: pos.Msg, Occur: pos.Occur, Wire: pos.Wire, Kind: "bomb", Ord: g})
+				}
+				if pos.Phase == "req" && pos.Msg == 60 && fi == 0 {
+					n := len(c10KexNames) * len(c10CipherIDs)
+					step := 1
+					if tier != "thorough" {
+						step = 3 // quick: every cipher id with at least two key exchange names
+					}
+					for g := 0; g < n; g += step {
+						plans = append(plans, C10Plan{Seed: base.Seed, Key: f.Key, Enc: f.Enc, Proto: proto, Phase: pos.Phase, Msg: pos.Msg, Occur: pos.Occur, Kind: "suite", Ord: g})
+					}
 				}
 				if pos.Phase == "req" && pos.Msg == 68 && pos.Occur == 0 && !pos.Wire && fi == 0 {
 					// well-formed but hostile devmod histories from an authenticated device
@@ -657,7 +682,17 @@ func c10Run(env *Env, pl *C10Plan, collect map[c10Pos][]byte, baseAlloc uint64) 
 			setupFail("TO1", err)
 			return 0
 		}
-		_, perr = s.TO2(ctx, d1, "owner1", to1d, TO2Opts{Kex: defaultKex(cfg), Cipher: kex.A128GcmCipher, Transport: devTr,
+		kxs, cph := defaultKex(cfg), kex.A128GcmCipher
+		if pl.Kind == "suite" {
+			// the peer chooses the suites: every identifier the tables of the
+			// library know about and plenty they do not
+			kxs = kex.Suite(c10KexNames[pl.Ord%len(c10KexNames)])
+			cph = kex.CipherSuiteID(c10CipherIDs[(pl.Ord/len(c10KexNames))%len(c10CipherIDs)])
+			tampered = true
+			runtime.ReadMemStats(&ms0)
+			desc = fmt.Sprintf("device configured with key exchange %q and cipher suite %d", kxs, cph)
+		}
+		_, perr = s.TO2(ctx, d1, "owner1", to1d, TO2Opts{Kex: kxs, Cipher: cph, Transport: devTr,
 			Modules: map[string]serviceinfo.DeviceModule{"ping": &PongDevice{Mod: "ping", Rec: rec}}})
 	}
 	runtime.ReadMemStats(&ms1)
